@@ -247,6 +247,9 @@ impl Prop for Equivalence {
         let w = if t.chance(1, 2) { 8 } else { 4 };
         let mut cfg = GenCfg::rich(w);
         cfg.max_items = 2 + t.below(10 * crate::driver::scale());
+        // also gaps in front of a first base that carries the shared vftable pointer
+        cfg.vft_base_anywhere = true;
+        cfg.base_num = 2;
         let (prog, _, _) = gen_prog(t, cfg);
         let only = if t.chance(1, 4) { Some(t.pick(KINDS).to_string()) } else { None };
         Case { prog, w, seed: t.u64(), only }
